@@ -208,9 +208,19 @@ def rule_peer_shaped_sinks(S, res):
                                 ok = True
                             elif isinstance(gl, tuple) and gl[0] == "deep" and any(x[1] == gl[1] for x in up if x[0] == bk):
                                 ok = True  # every element of that collection was measured
+                    if not ok and tail in ("index", "index_mut", "split_at", "split_at_mut") and len(t["args"]) == 2 and t["args"][1]["k"] != "const":
+                        # a range / position clamped to the vector's own length: `v[..n.min(v.len())]`
+                        ib = fg.backward(fg.operand_nodes(bk, t["args"][1]), node_ok=lambda x: x[0] == bk, edge_ok=lambda e2: e2.kind in ("copy", "agg", "cast", "ref", "call", "field2whole", "base2field"))
+                        il = {x[1] for x in ib}
+                        has_min = any(ct["d"]["l"] in il and callee_names(ct) and callee_names(ct)[-1].rsplit("::", 1)[-1] == "min" for _c, ct in b.calls())
+                        roots = lambda o: {x[1] for x in fg.backward(fg.operand_nodes(bk, o), node_ok=lambda x: x[0] == bk, edge_ok=lambda e2: e2.kind in ("copy", "ref"))}
+                        croots = roots(t["args"][0])
+                        own_len = any(ct["d"]["l"] in il and callee_names(ct) and callee_names(ct)[-1].rsplit("::", 1)[-1] == "len" and ct["args"] and ct["args"][0]["k"] != "const" and (roots(ct["args"][0]) & croots) for _c, ct in b.calls())
+                        if has_min and own_len:
+                            ok = True
                     if ok:
                         n_guarded += 1
-                        res.ok("R1.i", "%s|%s[]|%s" % (b.owner.rsplit("::", 1)[-1], (b.locals[rl]["name"] if rl is not None and b.locals[rl]["name"] else "?"), lab), where(b, e.block), "`%s` on a peer-sized vector behind a fail-closed length test" % tail)
+                        res.ok("R1.i", "%s|%s[]|%s" % (b.owner.rsplit("::", 1)[-1], (b.locals[rl]["name"] if rl is not None and b.locals[rl]["name"] else "?"), lab), where(b, e.block), "`%s` on a peer-sized vector behind a fail-closed length test (or clamped to its own length)" % tail)
                         continue
                     var = b.locals[rl]["name"] if rl is not None and b.locals[rl]["name"] else "?"
                     res.bad("R1.i", "%s|%s[]|%s" % (b.owner.rsplit("::", 1)[-1], var, lab),
